@@ -227,3 +227,21 @@ RECIPES += [
      "`X >= Y` for `not X < Y`: differs when a NaN is involved"),
     ("C05", "break", ["C05-R1", "C05-R3"], PY, _PY1_LOOP, _py1(("            if X < Y:\n                break\n", "            if X < Y * (1 - 1e-12):\n                break\n")), "relative tolerance in the range comparison"),
 ]
+
+# jumps, repeated tests, tests moved into the loop condition
+_C1_GOTO = _c1(("        if (X < Y) break;\n", "        if (X < Y) goto next_point;\n"), ("          j -= 2;\n        }\n      }\n    }\n", "          j -= 2;\n        }\n      }\n    next_point: ;\n    }\n"))
+_PY1_CHAIN = _py1(("            if X < Y:\n                break\n            if j == 2:\n", "            if j == 2 and not X < Y:\n"),
+                  ("            else:\n                # /* step 4 from [1]: */\n", "            elif not X < Y:\n                # /* step 4 from [1]: */\n"),
+                  ("                j -= 2\n\n", "                j -= 2\n            else:\n                break\n\n"))
+_PY1_COND = _py1(("        while j > 1:\n            # /* step 3 from [1]: */\n            Y = abs(pts[j - 2] - pts[j - 1])\n            X = abs(pts[j - 1] - pts[j])\n            if X < Y:\n                break\n",
+                  "        while j > 1 and not abs(pts[j - 1] - pts[j]) < abs(pts[j - 2] - pts[j - 1]):\n            # /* step 3 from [1]: */\n            Y = abs(pts[j - 2] - pts[j - 1])\n"))
+
+RECIPES += [
+    ("C05", "neutral", [], C, _C1_STORE, _C1_GOTO, "rainflow1: `goto next_point` (label at the end of the count loop's body) instead of `break`"),
+    ("C05", "neutral", [], PY, _PY1_LOOP, _PY1_CHAIN, "_rainflow1: one if / elif / else chain that makes the X < Y test twice"),
+    ("C05", "neutral", [], PY, _PY1_LOOP, _PY1_COND, "_rainflow1: the X < Y test moved into the condition of the inner loop"),
+    ("C05", "break", ["C05-R1", "C05-R3"], PY, _PY1_LOOP, _PY1_CHAIN.replace("            elif not X < Y:\n", "            elif not X <= Y:\n"), "if / elif chain whose second test is not the first one (ties leave the loop)"),
+    ("C05", "break", ["C05-R1", "C05-R3"], PY, _PY1_LOOP, _PY1_COND.replace("and not abs(pts[j - 1] - pts[j]) < abs(pts[j - 2] - pts[j - 1]):", "and not abs(pts[j - 1] - pts[j]) <= abs(pts[j - 2] - pts[j - 1]):"),
+     "loop condition with <= for <"),
+    ("C05", "break", ["C05-R1", "C05-R3", "C05-R4"], C, _C1_STORE, _C1_GOTO.replace("    next_point: ;\n    }\n", "    }\n    next_point: ;\n"), "`goto` to a label behind the count loop: the first X < Y ends the counting"),
+]
